@@ -226,14 +226,22 @@ def drive(engine, ops):
             raise ValueError(op)
 
 
-def read_logs(engine, schedule, chunk):
+def sentinel_config(schedule, chunk):
+    """the sentinel epoch read_logs appends: one JIT chunk of burn-in (posterior after a posterior epoch)"""
+    last_ty = int(schedule[-1][0])
+    return (4 if last_ty == 4 else 3, int(chunk), 1)
+
+
+def read_logs(engine, schedule, chunk, cut_sentinel=True, sentinel=None):
     """-> logs[chain][kernel] = list of rows (lists of W python ints; key words as unsigned).
     Public API only: a sentinel epoch of duration ``chunk`` is appended and sampled *after* the run
-    under test; the kernel states stored at its last iteration hold the whole log."""
+    under test; the kernel states stored at its last iteration hold the whole log.
+    cut_sentinel=False keeps the sentinel's own rows (everything up to each kernel's last transition;
+    the caller then treats the sentinel as part of the schedule)."""
     L = _lib()
     np = L["np"]
-    last_ty = int(schedule[-1][0])
-    sentinel = (4 if last_ty == 4 else 3, int(chunk), 1)
+    if sentinel is None:
+        sentinel = sentinel_config(schedule, chunk)
     engine.append_epoch(epoch_config(sentinel))
     engine.sample_next_epoch()
     res = engine.get_results()
@@ -255,7 +263,7 @@ def read_logs(engine, schedule, chunk):
                 r[C_KEY1] &= 0xFFFFFFFF
                 rows.append(r)
             # cut the sentinel's rows: they are the trailing rows with epoch index n_sched
-            while rows and rows[-1][C_NTH] == n_sched:
+            while cut_sentinel and rows and rows[-1][C_NTH] == n_sched:
                 rows.pop()
             logs[c][kidx] = rows
     return logs
